@@ -168,7 +168,7 @@ func (p *Program) encodeUnit(c *Contract) *UnitResult {
 		for k, v := range resultVars(fn.Signature, results, c.Results) {
 			vars[k] = v
 		}
-		post := &CEnv{e: e, vars: vars, st: stF, old: st0, pkg: fn.Pkg.Pkg, lets: c.Lets, errs: &errs}
+		post := &CEnv{e: e, vars: vars, st: stF, old: st0, pkg: fn.Pkg.Pkg, lets: c.Lets, errs: &errs, sel: f}
 		for i, en := range c.Ensures {
 			lab := en.Label
 			if lab == "" {
